@@ -139,12 +139,16 @@ func rejectText(res *TLCResult) string {
 // offendingEvent returns the trace line TLC could not match.
 func offendingEvent(it traceItem, res *TLCResult) string {
 	lines := bytes.Split(it.Trace, []byte("\n"))
-	i := int(res.Distinct) - 1
-	if res.Violated != "" {
-		i--
-	}
+	i := int(res.Distinct) - 1 // the state that failed has l = Distinct and looks at Trace[l]
 	if i >= 0 && i < len(lines) {
-		return truncate(string(lines[i]), 300)
+		return truncate(string(lines[i]), diagLen())
 	}
 	return ""
+}
+
+func diagLen() int {
+	if os.Getenv("VERIF_FULL") != "" {
+		return 1 << 30
+	}
+	return 1200
 }
